@@ -504,7 +504,10 @@ def _(p):
         u, v = float(u), float(v)
         return (numpy.isnan(u) and numpy.isnan(v)) or u == v  # bit-identical
 
-    problems, claims = cc.run_history(p["formula"], tuple(p["history"]), {1: (d1, {}), 2: (d2, {})}, same, lambda num: None)
+    import pandas
+
+    d3 = pandas.DataFrame({"a": pandas.Categorical(["p", "q", "r", "p", "q", "r", "p"]), "B": d1["B"], "z": d1["z"], "A": [v + 0.5 for v in _A_TRAIN], "b": _B_TRAIN})
+    problems, claims = cc.run_history(p["formula"], tuple(p["history"]), {1: (d1, {}), 2: (d2, {}), 3: (d3, {})}, same, lambda num: None)
     for label, cs, tag in claims:
         if not all(cs):
             problems.append((tag, f"{label}: values differ"))
